@@ -9,7 +9,7 @@ from lib.runner import Stage, Violation, hyp_drive, guarded
 
 RULE = ("cell x closed_ring in {True,False,omitted} x segments in {omitted,None,'auto',1,2,3,7,16} (24 option sets per cell, "
         "plus options=None and {} and one further explicit segments value per cell from 4..257 around powers of two): all cells of res 0..4 (quick) / 0..6 (thorough) and Hypothesis cells of res 4..29 by id "
-        "construction and by location (antimeridian, polar caps, exact poles, frame points). Oracle: vertex count (3 at res 1 "
+        "construction and by location (antimeridian, polar caps, exact poles, frame points); every cell of the first rings around both poles at 6/28 resolutions. Oracle: vertex count (3 at res 1 "
         "else 5)*k (+1 iff closed), k=max(1,2^(6-res)) for the auto spellings; closed => first==last; latitudes in [-90,90]; "
         "ring simple and counter-clockwise in the gnomonic plane about the centre; segments=1 corners occur in every k-ring "
         "(<=1e-7 L) exactly k apart in the same cyclic order; options dict not mutated; if no pole within 1e-3 L of the cell: "
@@ -205,8 +205,31 @@ def stage_boundary(ctx):
     hyp_drive(ctx, strat, judge, 25 if ctx.tier == "quick" else 600)
 
 
+def stage_polar_rosette(ctx):
+    """All cells in the first few rings around both poles: points at 0.5..6 cell widths from the pole on 36 meridians,
+    at 6 (quick) / 28 (thorough) resolutions; every cell found gets the full option grid."""
+    a5 = _a5()
+    ress = list(range(2, 30))
+    if ctx.tier == "quick":
+        ress = [2 + (ctx.seed + 5 * k) % 28 for k in range(6)]
+    jobs = [(r, south) for r in sorted(set(ress)) for south in (False, True)]
+    seen = set()
+    for r, south in jobs[ctx.shard::ctx.nshards]:
+        L = math.degrees(refgeo.cell_width(r))
+        for j in (0.5, 1.0, 1.6, 2.3, 3.2, 4.4, 6.0):
+            for m in range(36):
+                lat = 90.0 - j * L
+                p = (m * 10.0 + 3.0 * j, -lat if south else lat)
+                cell = guarded(a5.lonlat_to_cell, p, r, kind="lonlat_to_cell_raised", case={"lon": p[0], "lat": p[1], "res": r})
+                if cell in seen:
+                    continue
+                seen.add(cell)
+                judge_cell(cell, ctx.col, "polar_rosette")
+
+
 def plan(tier):
-    return [Stage("enum", 16, stage_enum, cost=8), Stage("hyp", 16, stage_hyp, cost=6), Stage("boundary", 16, stage_boundary, cost=4)]
+    return [Stage("enum", 16, stage_enum, cost=8), Stage("hyp", 16, stage_hyp, cost=6), Stage("boundary", 16, stage_boundary, cost=4),
+            Stage("polar_rosette", 12, stage_polar_rosette, cost=5)]
 
 
 def replay(rec, col):
